@@ -550,7 +550,7 @@ class C07(Prop):
     n_thorough = 8000
     procs_quick = 4
     procs_thorough = 16
-    required_theorems = ["C07_sortKeys_perm", "C07_mapKeys_perm", "C07_explicit_order", "C07_render_writes_nothing_shared"]
+    required_theorems = ["C07_sortKeys_perm", "C07_mapKeys_perm", "C07_explicit_order", "C07_render_writes_nothing_shared", "C07_package_state_inventory"]
     rule = ("documents of the C02 / C03 / C05 (spread attributes) / C20 generators plus templates that push to, assign into, sort, splice and pop everything reachable "
             "from the data: each rendered 3x on one engine, on a second engine, and in 4 (quick) / 16 (thorough) fresh processes; render histories (3-10 renders over 2-4 "
             "templates on one engine) compared with standalone renders; the caller's data deep-compared before/after. Non-trivial: every case; distinct by case.")
@@ -624,7 +624,7 @@ class C08(Prop):
     needs_race = True
     required_theorems = ["C08_noninterference", "C08_render_alone", "C08_schedule_independent", "C08_render_path_writes_nothing_shared",
                          "C08_reach_covers_executor", "C08_lock_shape", "C08_funcs_read_engine_locked", "C08_write_set_by_function",
-                         "C08_funcs_pkg_writes_only_known"]
+                         "C08_funcs_pkg_writes_only_known", "C08_package_state_inventory"]
     rule = ("engines with 2-6 templates (programs of the C02 loops/conditionals, C03 mixins-with-blocks, C05 attributes, C20 heap-mutation generators, templates that mutate "
             "everything reachable from their data, templates that fail at run time, templates calling the module's asset() with a manifest.json), production and debug mode; "
             "N in {2,4,16,64} goroutines x 3 renders x 2 (thorough: 6) rounds released together, every call with its own deep copy of the data; every result compared with the "
